@@ -52,7 +52,9 @@ def serialize_json_safe(obj: Any) -> Any:
     """Return ``obj`` if JSON serializable, else ``safe_repr`` string."""
 
     try:
-        json.dumps(obj, ensure_ascii=False)
+        # Same options as the trace drivers use when they write the record: a mapping
+        # whose keys cannot be ordered serializes unsorted but not sorted.
+        json.dumps(obj, ensure_ascii=False, sort_keys=True)
         return obj
     except Exception:
         return safe_repr(obj)
